@@ -141,6 +141,11 @@ class AnalysisInterp(Interp):
             lo, hi = it.data
             var = poly.fresh_bv()
             return var, hi - lo, None, Obj("candle", lo + Frac.atom(var))
+        if isinstance(it, Obj) and it.kind == "reversed" and isinstance(it.data, Obj) and it.data.kind == "slice":
+            # newest first over candles[lo:hi]: positions hi-1, hi-2, ..., lo
+            lo, hi = it.data.data
+            var = poly.fresh_bv()
+            return var, hi - lo, None, Obj("candle", hi - ONE - Frac.atom(var))
         if isinstance(it, Obj) and it.kind == "reversed" and isinstance(it.data, SeqV):
             s = it.data
             var = poly.fresh_bv()
